@@ -543,3 +543,68 @@ def scan_exits(ctx, prog):
     ok = not bad and n_true == 1 and n_short == 1 and n_exh == 1
     ctx.ob("SA-GUARD", "has_common_substring_internal: true only at a live window end, false only before scanning or when no window is left (a failed window is never a reason to stop)",
            ok, "; ".join(bad) or "results: 1 true (window end, d != 0), 1 false (length tests), 1 false (l < MIN_LCS)", f.loc())
+
+
+def window_steps(ctx, prog):
+    """the window iterators as step formulas (forward value numbering of the loop-free `next` bodies): a numeric window is
+    ((previous << 6) | symbol) & (2^42 - 1) over the next symbol of the remaining slice, which then loses that symbol; an index window
+    is the numeric window with the effective block size in the bits above it (| log << 42); nothing else is stored or returned"""
+    from .. import vn
+    import re
+    RF = "SA-FORMULA"
+    f = prog.get("<internals::hash::block::block_hash::NumericWindows<'_> as core::iter::Iterator>::next")
+    if f is None:
+        return ctx.ob(RF, "NumericWindows::next exists", False, "not found")
+    ctx.visit(f)
+    fw = vn.Forward(f)
+    stores = [(canon(strip(p)), canon(strip(v))) for (b, kind, p, v) in fw.events if kind == "store"]
+    ITEM = "(core::slice::<impl [T]>::split_first(init:self.v) as Some).0"
+    W = "BitAnd(BitOr(Shl(init:self.hash,internals::hash::block::block_hash::NumericWindows::<'a>::ILOG2_OF_ALPHABETS=6),(%s.0 as u64)),internals::hash::block::block_hash::NumericWindows::<'a>::MASK=4398046511103)" % ITEM
+    want = sorted([("param:self.hash", W), ("param:self.v", ITEM + ".1")])
+    ok = sorted(stores) == want
+    ctx.ob(RF, "NumericWindows::next: hash := ((hash << 6) | next symbol) & MASK(42 bits), v := rest - and nothing else is stored", ok,
+           "stores %s" % [(p, v[:90]) for p, v in stores], f.loc())
+    try:
+        M, L = fw.final_memory()
+        ret = canon(strip(L.get(0, ("unknown", ""))))
+    except ValueError as ex:
+        ret = "?(%s)" % ex
+    ok = ret.startswith("phi(") and ("core::option::Option::Some{%s}" % W) in ret and "core::option::Option::None{}" in ret and ret.count("Option::") == 2
+    ctx.ob(RF, "NumericWindows::next returns Some(the new window) when a symbol is left and None otherwise", ok, ret[:200], f.loc())
+    g = prog.get("<internals::hash::block::block_hash::IndexWindows<'_> as core::iter::Iterator>::next")
+    if g is None:
+        return ctx.ob(RF, "IndexWindows::next exists", False, "not found")
+    ctx.visit(g)
+    sy = Sym(g)
+    e = strip(sy.local(0))
+    ok = False
+    why = show(e)[:160]
+    if e[0] == "call" and e[1].endswith("Option::<T>::map") and len(e[2]) == 2:
+        a0, cl = strip(e[2][0]), strip(e[2][1])
+        ok = a0[0] == "call" and a0[1].endswith("NumericWindows<'_> as core::iter::Iterator>::next") and canon(strip(a0[2][0])) == "param:self.inner" and \
+            cl[0] == "agg" and cl[1].startswith("Closure:") and [canon(strip(x)) for x in cl[2]] == ["param:self.log_block_size"]
+        if ok:
+            h = prog.get(cl[1][len("Closure:"):])
+            ce = canon(strip(Sym(h).local(0))) if h else ""
+            ok = re.match(r"^BitOr\(param:\w+,Shl\(\(param:\w*1\.0 as u64\),internals::hash::block::block_hash::NumericWindows::<'a>::BITS=42\)\)$", ce) is not None
+            why += "; closure %s" % ce[:120]
+    if not ok:
+        # the same function with `map` written out as a match
+        from ..sym import path_conds
+        some, none, other = [], [], []
+        for i, j, st in g.stmts():
+            if st["s"] == "assign" and st["lhs"]["l"] == 0 and not st["lhs"]["p"]:
+                v = canon(strip(sy.rvalue(st["rv"])))
+                ds = [c for c in path_conds(g, sy, i) if strip(c[0])[0] == "discr"]
+                is_some = any((c[1] == "in" and sorted(c[2]) == [1]) or (c[1] == "notin" and sorted(c[2]) == [0]) for c in ds)
+                N = "<internals::hash::block::block_hash::NumericWindows<'_> as core::iter::Iterator>::next(param:self.inner)"
+                if v == "core::option::Option::Some{BitOr((%s as Some).0,Shl((param:self.log_block_size as u64),internals::hash::block::block_hash::NumericWindows::<'a>::BITS=42))}" % N and is_some:
+                    some.append(i)
+                elif v == "core::option::Option::None{}" and ds and not is_some:
+                    none.append(i)
+                else:
+                    other.append(v[:80])
+        if len(some) == 1 and len(none) == 1 and not other:
+            ok = True
+            why = "match form: Some(w | log << 42) on Some, None on None"
+    ctx.ob(RF, "IndexWindows::next = inner.next().map(|w| w | (log_block_size << 42))", ok, why, g.loc())
